@@ -6,10 +6,11 @@ from concurrent.futures import ThreadPoolExecutor
 HERE = os.path.dirname(os.path.abspath(__file__))
 jobs = int(sys.argv[1]) if len(sys.argv) > 1 else 3
 only = set(sys.argv[2:])
+skip = set(filter(None, os.environ.get('MUTSWEEP_SKIP', '').split(',')))
 items = []
 for d in sorted(glob.glob(os.path.join(HERE, "mutants", "C*"))):
     cid = os.path.basename(d)
-    if only and cid not in only:
+    if (only and cid not in only) or cid in skip:
         continue
     for m in sorted(glob.glob(os.path.join(d, "*.diff"))):
         items.append((cid, m))
